@@ -30,7 +30,7 @@ from featlib import Check, walk, render, is_call, rel
 from lafem_roles import (Unknown, strip_targs, defile, strip, Locals, perspective, objkey, accessor, const_value,
                          assertions, counting_loop, is_zero, flatten_if_chain, stmts, live_must_pass)
 from norm_c03 import Frame, MergeInterp
-from norm_c04 import fuse_while, loop_form, alias_value, EMPTY, scalar_guard, array_units, partitions, pattern_label
+from norm_c04 import inline_helpers, fuse_while, loop_form, alias_value, EMPTY, scalar_guard, array_units, partitions, pattern_label
 
 LAFEM = featlib.repo_path("kernel/lafem/")
 MATRIX_CLASSES = ("FEAT::LAFEM::SparseMatrixCSR", "FEAT::LAFEM::SparseMatrixBCSR")
@@ -318,6 +318,14 @@ class MKernel:
                 if nm == "rows":
                     return sympy.Symbol("rows")
             raise Unknown("index term `%s`" % render(n))
+        if k == "Bin" and n.get("op") == "-":
+            pa, pb = self.ptr_off(n["lhs"]), self.ptr_off(n["rhs"])
+            if pa is not None and pb is not None:
+                if pa[0] != pb[0]:
+                    raise Unknown("difference of pointers into different arrays `%s`" % render(n))
+                return pa[1] - pb[1]            # `last - first` of a range inside one array
+            if pa is None and pb is None:
+                return self.isym(n["lhs"]) - self.isym(n["rhs"])
         if k == "Bin" and n.get("op") in ("+", "*"):
             a, b = self.isym(n["lhs"]), self.isym(n["rhs"])
             return a + b if n["op"] == "+" else a * b
@@ -330,6 +338,34 @@ class MKernel:
             raise Unknown("index term `%s`" % render(n))
         raise Unknown("index term `%s` (%s)" % (render(n), k))
 
+    def ptr_off(self, n):
+        """pointer expression into a parameter array (`val`, `val + e`, a const local holding such a value) -> (param decl id, offset)"""
+        n = self.loc.resolve(n)
+        if n.get("k") == "Ref" and n.get("d") in self.ptr:
+            return n["d"], sympy.Integer(0)
+        if n.get("k") == "Bin" and n.get("op") in ("+", "-"):
+            pa = self.ptr_off(n["lhs"])
+            if pa is not None:
+                try:
+                    o = self.isym(n["rhs"])
+                except Unknown:
+                    return None
+                return pa[0], (pa[1] + o if n["op"] == "+" else pa[1] - o)
+            if n["op"] == "+":
+                pb = self.ptr_off(n["rhs"])
+                if pb is not None:
+                    try:
+                        return pb[0], pb[1] + self.isym(n["lhs"])
+                    except Unknown:
+                        return None
+        if n.get("k") == "Un" and n.get("op") == "&":
+            e = strip(n["e"])
+            if e.get("k") == "Index":
+                pa = self.ptr_off(e["b"])
+                if pa is not None:
+                    return pa[0], pa[1] + self.isym(e["idx"])
+        return None
+
     def address(self, n):
         """Index / Tiny component chain -> (param name, flat address expr, [component symbols])"""
         comps = []
@@ -339,10 +375,10 @@ class MKernel:
             n = strip(n["a"][0])
         if n.get("k") != "Index":
             raise Unknown("`%s` is not an array access" % render(n))
-        b = self.loc.resolve(n["b"])
-        if not (b.get("k") == "Ref" and b.get("d") in self.ptr):
-            raise Unknown("array `%s` is not a parameter" % render(n["b"]))
-        return self.params[b["d"]], self.isym(n["idx"]), comps
+        pa = self.ptr_off(n["b"])
+        if pa is None:
+            raise Unknown("array `%s` is not a parameter (or a pointer into one)" % render(n["b"]))
+        return self.params[pa[0]], pa[1] + self.isym(n["idx"]), comps
 
     def cell(self, n):
         """array access -> Symbol(param) if subscripted by the index kind of its role"""
@@ -436,6 +472,16 @@ class MKernel:
                     return v["d"], I
                 if int(hi["v"]) == self.tdims[1]:
                     return v["d"], J
+            try:
+                hs = sympy.expand(self.isym(hi))        # e.g. the length `last - first` of a std::fill range
+            except Unknown:
+                hs = None
+            if hs is not None and hs == BH:
+                return v["d"], I
+            if hs is not None and hs == BW:
+                return v["d"], J
+            if hs is not None and hs == sympy.Symbol("rows"):
+                return v["d"], ROW
             raise Unknown("loop bound `%s` at line %s" % (render(hi), node.get("l")))
         # entry loop: [row_ptr[ROW], row_ptr[ROW+1])
         if "ROW" in env:
@@ -1553,7 +1599,7 @@ def run(tier):
             m = re.match(r"^FEAT::LAFEM::Arch::(\w+)$", base)
             if m and m.group(1) == "ProductMatMat":
                 if fn.name in ("dense_generic", "dsd_generic"):
-                    analyse_product_kernel(ck, fn)
+                    analyse_product_kernel(ck, inline_helpers(fn))
                 continue
             if base == "FEAT::LAFEM::DenseMatrix" and fn.name == "multiply":
                 for c in fn.calls(callee_re=r"^FEAT::LAFEM::Arch::ProductMatMat::(dense|dsd)$"):
@@ -1561,7 +1607,7 @@ def run(tier):
                 continue
             if m and m.group(1) in MATRIX_KERNELS:
                 if "generic" in fn.name:
-                    analyse_matrix_kernel(ck, fn, m.group(1))
+                    analyse_matrix_kernel(ck, inline_helpers(fn), m.group(1))       # helpers of kernel/lafem, if constexpr, std::fill/copy
                 elif re.match(r"^(csr|bcsr)(_norm2|_norm2sqr|_scaled_norm2sqr)?$", fn.name):
                     check_dispatch(ck, fn)
                 continue
